@@ -39,12 +39,13 @@ MutSteps(p) ==
 Kind(s) == IF s = "OpenTruncate" THEN "open" ELSE IF s = "WriteBytes" THEN "write" ELSE "compute"
 
 (* malformed inputs: which step rejects them *)
-Inputs == {"ok", "not_json", "no_packages", "packages_not_object", "bad_key", "key_file_unreadable", "key_file_not_hex",
+Inputs == {"ok", "not_json", "no_packages", "packages_not_object", "conda_not_object", "bad_key", "key_file_unreadable", "key_file_not_hex",
            "no_sslib", "not_signable", "unserializable", "signer_fails", "key_lookup_fails"}
 FailsAt(p, input) ==
   CASE input = "not_json" -> "Load"
     [] input = "no_packages" -> "CheckShape"
     [] input = "packages_not_object" -> "SignArtifacts"
+    [] input = "conda_not_object" -> "SignConda"           \* discovered only after every entry of "packages" has been signed
     [] input = "bad_key" -> IF p = "cli_sign" THEN "CheckKey" ELSE IF p = "repodata" THEN "ValidateArgs" ELSE "AskSigner"
     [] input = "key_file_unreadable" -> "ReadKeyFile"
     [] input = "key_file_not_hex" -> "CheckKey"
@@ -55,8 +56,8 @@ FailsAt(p, input) ==
     [] input = "key_lookup_fails" -> "FetchKey"
     [] OTHER -> "never"
 InputsOf(p) ==
-  CASE p = "repodata" -> {"ok", "not_json", "no_packages", "packages_not_object", "bad_key"}
-    [] p = "cli_sign" -> {"ok", "not_json", "no_packages", "packages_not_object", "bad_key", "key_file_unreadable", "key_file_not_hex"}
+  CASE p = "repodata" -> {"ok", "not_json", "no_packages", "packages_not_object", "conda_not_object", "bad_key"}
+    [] p = "cli_sign" -> {"ok", "not_json", "no_packages", "packages_not_object", "conda_not_object", "bad_key", "key_file_unreadable", "key_file_not_hex"}
     [] p \in {"gpg", "cli_gpg"} -> {"ok", "not_json", "no_sslib", "not_signable", "unserializable", "signer_fails", "key_lookup_fails", "bad_key"}
     [] p = "write" -> {"ok", "unserializable"}
 Applicable(p, input) == input \in InputsOf(p)
